@@ -133,6 +133,45 @@ def rule_embedded_commit_qc(ctx):
            "process_timeout_qc can return Ok without processing the certificate's high commit QC when (held timeout QC, held.view vs qc.view) is %s: a newer commit certificate carried by a same-view (or older) timeout certificate is dropped" % bad, f.loc())
 
 
+def rule_justification_always_processed(ctx):
+    R = "C05.10"
+    ctx.rule(R, "a handler that accepts a message carrying a justification (on_proposal, on_new_view) hands that certificate to process_commit_qc / process_timeout_qc on EVERY successful path - also when the message is for the view the replica is already in (it may have entered the view through another, older certificate; spec/informal-spec/replica.rs on_proposal / on_new_view process the justification unconditionally). Skipping it leaves the replica's highest certificates below what it has verified and acted on: its own timeout / new-view messages are then no longer self-justifying and a finalized block is not saved")
+    for h in ("on_proposal", "on_new_view"):
+        f = ctx.body(SM + "::" + h)
+        T = ctx.T(f)
+        calls = {}
+        for c in T.calls():
+            q = c["rq"] or c["q"]
+            if q in (SM + "::process_commit_qc", SM + "::process_timeout_qc"):
+                calls.setdefault(q.rsplit("::", 1)[1], []).append(c["bb"])
+        ctx.floor(R, "process_*_qc call sites in %s" % h, len(calls), 2)
+        if len(calls) < 2:
+            continue
+        allc = frozenset(b for v in calls.values() for b in v)
+        rets = set(Q.success_return_blocks(ctx, f)) if f.locals[0].s.startswith("std::result::Result<") else set(b for b, _ in Q.return_blocks_maybe_ok(ctx, f))
+        cfg = ctx.cfg(f, with_cancel=False)
+        r = cfg.reach_from([0], avoid_blocks=allc)
+        leak = r & rets
+        if leak:
+            W = Walker(ctx, f, [])
+            leak = W.reachable({}, 0, allc) & rets
+        ctx.ob(R, "%s: justification processed on every successful path" % h, not leak and bool(rets),
+               "every Ok return of %s is preceded by process_commit_qc / process_timeout_qc of the carried certificate" % h if not leak and rets else
+               "%s can return Ok without handing the message's justification to process_commit_qc / process_timeout_qc: the certificate of an accepted message is dropped (e.g. when the message is for the replica's current view)" % h, f.loc())
+        # which certificate: the one inside the handled message's justification
+        okarg = True
+        for c in T.calls():
+            q = c["rq"] or c["q"]
+            if q in (SM + "::process_commit_qc", SM + "::process_timeout_qc"):
+                a = T.args_of(c)
+                qc = a[2] if len(a) > 2 else None
+                if qc is None or not any(x[0] == "field" and x[2] == "justification" for x in subterms(qc)):
+                    vs = common.value_terms(f, T, qc) if qc is not None else []
+                    if not any(x[0] == "field" and x[2] == "justification" for v in vs for x in subterms(v)):
+                        okarg = False
+        ctx.ob(R, "%s: the processed certificate is the message's justification" % h, okarg, "process_*_qc(ctx, <message>.justification's certificate)" if okarg else "%s processes a certificate that is not the handled message's justification" % h, f.loc())
+
+
 def rule_new_view_membership(ctx):
     R = "C05.9"
     ctx.rule(R, "a new-view message is acted on only when its signer is a committee member (spec/informal-spec/replica.rs on_new_view): certificate adoption and the view change are unreachable when validators.contains(author) is false")
@@ -310,5 +349,5 @@ def rule_justification_choice(ctx):
                "with commit=%s timeout=%s order %s get_justification reaches %s; specified %s (spec/informal-spec/replica.rs create_justification)" % (c, t, o, sorted(reach), sorted(exp)), g.loc())
 
 
-RULES = [("C05.1", rule_who_writes), ("C05.4", rule_justification_choice), ("C05.2", rule_strictly_newer), ("C05.3", rule_embedded_commit_qc), ("C05.9", rule_new_view_membership), ("C05.5", rule_stale_new_view), ("C05.6", rule_stale_votes),
+RULES = [("C05.1", rule_who_writes), ("C05.4", rule_justification_choice), ("C05.2", rule_strictly_newer), ("C05.3", rule_embedded_commit_qc), ("C05.10", rule_justification_always_processed), ("C05.9", rule_new_view_membership), ("C05.5", rule_stale_new_view), ("C05.6", rule_stale_votes),
          ("C05.7", rule_self_justifying), ("C05.8", rule_wrong_leader)]
